@@ -43,6 +43,9 @@ structure TblOK (t : Tbl) : Prop where
   hashedCompared : ∀ p, p ∈ t.hashedFresh → p ∈ t.compared
   comparedHashed : ∀ p, p ∈ t.compared → p ∈ t.hashedFresh
   countRequired : FileId.count ∈ t.required
+  hashesRequired : FileId.hashes ∈ t.required
+  infraRequired : FileId.infra ∈ t.required
+  tsExact : t.tsExact = true
   freshOps : t.freshOps = safeIOps
   regenOps : t.regenOps = safeIOps
   emisRegen : t.emisRegen = safePhases
@@ -54,7 +57,8 @@ def Tbl.okB (t : Tbl) : Bool :=
   && Input.all.all (fun i => t.hashedFresh.any (fun p => p.2 == i))
   && t.hashedFresh.all (fun p => t.compared.contains p)
   && t.compared.all (fun p => t.hashedFresh.contains p)
-  && t.required.contains .count
+  && t.required.contains .count && t.required.contains .hashes && t.required.contains .infra
+  && t.tsExact
   && decide (t.freshOps = safeIOps) && decide (t.regenOps = safeIOps)
   && decide (t.emisRegen = safePhases) && decide (t.emisExtend = safePhases)
 
@@ -64,8 +68,8 @@ theorem Input.mem_all (i : Input) : i ∈ Input.all := by
 theorem Tbl.ok_of_okB (t : Tbl) (h : t.okB = true) : TblOK t := by
   simp only [Tbl.okB, Bool.and_eq_true, decide_eq_true_eq, List.all_eq_true, List.any_eq_true,
     List.contains_iff_mem, beq_iff_eq] at h
-  obtain ⟨⟨⟨⟨⟨⟨⟨⟨⟨h1, h2⟩, h3⟩, h4⟩, h5⟩, h6⟩, h7⟩, h8⟩, h9⟩, h10⟩ := h
-  refine ⟨h1, h2, ?_, h4, h5, h6, h7, h8, h9, h10⟩
+  obtain ⟨⟨⟨⟨⟨⟨⟨⟨⟨⟨⟨⟨h1, h2⟩, h3⟩, h4⟩, h5⟩, h6⟩, h6a⟩, h6b⟩, h6c⟩, h7⟩, h8⟩, h9⟩, h10⟩ := h
+  refine ⟨h1, h2, ?_, h4, h5, h6, h6a, h6b, h6c, h7, h8, h9, h10⟩
   intro i
   obtain ⟨p, hp, e⟩ := h3 i (Input.mem_all i)
   exact ⟨p.1, by cases p; simp_all⟩
@@ -127,29 +131,35 @@ theorem applyAll_emisLoop (g : Gen) (cnt lo : Nat) (d : Disk) :
 
 /-! ### the invariant -/
 
+/-- an emission file is the scenario of generation `g`; with `w` (the user deleted emission files
+somewhere in the history) it may also be missing -/
+def Slot (w : Bool) (x : FileSt Gen) (g : Gen) : Prop := x = .ok g ∨ (w = true ∧ x = .absent)
+
+theorem Slot.of_ok (w : Bool) (g : Gen) : Slot w (.ok g) g := Or.inl rfl
+
 /-- whenever the count file, the hash file and the infrastructure file are all readable, the stored
 hashes identify exactly the inputs the stored infrastructure was generated from, and the first
 `count` emission files were generated by that very infrastructure -/
-def Inv (t : Tbl) (d : Disk) : Prop :=
+def Inv (t : Tbl) (w : Bool) (d : Disk) : Prop :=
   ∀ c st g, d.count = .ok c → d.hashes = .ok st → d.infra = .ok g →
     hashesMatch t st g.vv = true ∧ (∀ vv, hashesMatch t st vv = true → g.vv = vv) ∧
-    ∀ i, i < c → d.emis i = .ok g
+    ∀ i, i < c → Slot w (d.emis i) g
 
 /-- local condition under which one step keeps the invariant -/
-def StepOk (t : Tbl) (d : Disk) : Step → Prop
+def StepOk (t : Tbl) (w : Bool) (d : Disk) : Step → Prop
   | .wrCount n => ∀ st g, d.hashes = .ok st → d.infra = .ok g →
       hashesMatch t st g.vv = true ∧ (∀ vv, hashesMatch t st vv = true → g.vv = vv) ∧
-      ∀ i, i < n → d.emis i = .ok g
+      ∀ i, i < n → Slot w (d.emis i) g
   | .wrHashes _ => ∀ c, d.count ≠ .ok c
   | .wrInfra _ => ∀ c, d.count ≠ .ok c
   | .wrEmis i _ => ∀ c, d.count = .ok c → c ≤ i
   | _ => True
 
-theorem step_inv (t : Tbl) (d : Disk) (s : Step) (hi : Inv t d) (hs : StepOk t d s) :
-    Inv t (s.apply d) := by
+theorem step_inv (t : Tbl) (w : Bool) (d : Disk) (s : Step) (hi : Inv t w d) (hs : StepOk t w d s) :
+    Inv t w (s.apply d) := by
   cases s with
   | wrSeeds n => exact hi
-  | wrTs => exact hi
+  | wrTs p => exact hi
   | wrHashes st' =>
     intro c st g hc _ _
     exact absurd hc (hs c)
@@ -178,11 +188,11 @@ theorem step_inv (t : Tbl) (d : Disk) (s : Step) (hi : Inv t d) (hs : StepOk t d
     | infra => intro c st g _ _ hg; simp [Step.apply, Disk.remove] at hg
     | count => intro c st g hc _ _; simp [Step.apply, Disk.remove] at hc
 
-theorem tear_inv (t : Tbl) (d : Disk) (s : Step) (hi : Inv t d) (hs : StepOk t d s) :
-    Inv t (s.tear d) := by
+theorem tear_inv (t : Tbl) (w : Bool) (d : Disk) (s : Step) (hi : Inv t w d) (hs : StepOk t w d s) :
+    Inv t w (s.tear d) := by
   cases s with
   | wrSeeds n => exact hi
-  | wrTs => exact hi
+  | wrTs p => exact hi
   | rm f => exact hi
   | wrHashes st' => intro c st g _ hh _; simp [Step.tear] at hh
   | wrInfra g' => intro c st g _ _ hg; simp [Step.tear] at hg
@@ -198,24 +208,24 @@ theorem tear_inv (t : Tbl) (d : Disk) (s : Step) (hi : Inv t d) (hs : StepOk t d
     exact e j hj
 
 /-- every step of the list is fine at the folder it is applied to -/
-def ChainOk (t : Tbl) : Disk → List Step → Prop
+def ChainOk (t : Tbl) (w : Bool) : Disk → List Step → Prop
   | _, [] => True
-  | d, s :: rest => StepOk t d s ∧ ChainOk t (s.apply d) rest
+  | d, s :: rest => StepOk t w d s ∧ ChainOk t w (s.apply d) rest
 
-theorem chain_append (t : Tbl) (a b : List Step) (d : Disk) :
-    ChainOk t d (a ++ b) ↔ ChainOk t d a ∧ ChainOk t (applyAll a d) b := by
+theorem chain_append (t : Tbl) (w : Bool) (a b : List Step) (d : Disk) :
+    ChainOk t w d (a ++ b) ↔ ChainOk t w d a ∧ ChainOk t w (applyAll a d) b := by
   induction a generalizing d with
   | nil => simp [ChainOk]
   | cons s rest ih => simp [ChainOk, ih, and_assoc]
 
-theorem chain_inv (t : Tbl) (l : List Step) (d : Disk) (hi : Inv t d) (hc : ChainOk t d l) :
-    Inv t (applyAll l d) := by
+theorem chain_inv (t : Tbl) (w : Bool) (l : List Step) (d : Disk) (hi : Inv t w d) (hc : ChainOk t w d l) :
+    Inv t w (applyAll l d) := by
   induction l generalizing d with
   | nil => exact hi
-  | cons s rest ih => exact ih _ (step_inv t d s hi hc.1) hc.2
+  | cons s rest ih => exact ih _ (step_inv t w d s hi hc.1) hc.2
 
-theorem chain_take (t : Tbl) (l : List Step) (k : Nat) (d : Disk) (hc : ChainOk t d l) :
-    ChainOk t d (l.take k) := by
+theorem chain_take (t : Tbl) (w : Bool) (l : List Step) (k : Nat) (d : Disk) (hc : ChainOk t w d l) :
+    ChainOk t w d (l.take k) := by
   induction l generalizing d k with
   | nil => simp [ChainOk]
   | cons s rest ih =>
@@ -223,8 +233,8 @@ theorem chain_take (t : Tbl) (l : List Step) (k : Nat) (d : Disk) (hc : ChainOk 
     | zero => simp [ChainOk]
     | succ k => exact ⟨hc.1, ih k _ hc.2⟩
 
-theorem chain_get (t : Tbl) (l : List Step) (k : Nat) (s : Step) (d : Disk) (hc : ChainOk t d l)
-    (hk : l[k]? = some s) : StepOk t (applyAll (l.take k) d) s := by
+theorem chain_get (t : Tbl) (w : Bool) (l : List Step) (k : Nat) (s : Step) (d : Disk) (hc : ChainOk t w d l)
+    (hk : l[k]? = some s) : StepOk t w (applyAll (l.take k) d) s := by
   induction l generalizing d k with
   | nil => simp at hk
   | cons s' rest ih =>
@@ -238,19 +248,19 @@ theorem chain_get (t : Tbl) (l : List Step) (k : Nat) (s : Step) (d : Disk) (hc 
       exact ih k _ hc.2 hk
 
 /-- a crash before any step, or inside the `pickle.dump` of any step, keeps the invariant -/
-theorem chain_crash (t : Tbl) (l : List Step) (k : Nat) (d : Disk) (hi : Inv t d)
-    (hc : ChainOk t d l) : Inv t (applyAll (l.take k) d) :=
-  chain_inv t _ d hi (chain_take t l k d hc)
+theorem chain_crash (t : Tbl) (w : Bool) (l : List Step) (k : Nat) (d : Disk) (hi : Inv t w d)
+    (hc : ChainOk t w d l) : Inv t w (applyAll (l.take k) d) :=
+  chain_inv t w _ d hi (chain_take t w l k d hc)
 
-theorem chain_tear (t : Tbl) (l : List Step) (k : Nat) (d : Disk) (hi : Inv t d)
-    (hc : ChainOk t d l) : Inv t (tearAt l k d) := by
+theorem chain_tear (t : Tbl) (w : Bool) (l : List Step) (k : Nat) (d : Disk) (hi : Inv t w d)
+    (hc : ChainOk t w d l) : Inv t w (tearAt l k d) := by
   unfold tearAt
   cases h : l[k]? with
-  | none => exact chain_inv t l d hi hc
-  | some s => exact tear_inv t _ s (chain_crash t l k d hi hc) (chain_get t l k s d hc h)
+  | none => exact chain_inv t w l d hi hc
+  | some s => exact tear_inv t w _ s (chain_crash t w l k d hi hc) (chain_get t w l k s d hc h)
 
-theorem chain_emisLoop (t : Tbl) (g : Gen) (cnt lo : Nat) (d : Disk)
-    (h : ∀ c, d.count = .ok c → c ≤ lo) : ChainOk t d (emisLoop g lo cnt) := by
+theorem chain_emisLoop (t : Tbl) (w : Bool) (g : Gen) (cnt lo : Nat) (d : Disk)
+    (h : ∀ c, d.count = .ok c → c ≤ lo) : ChainOk t w d (emisLoop g lo cnt) := by
   induction cnt generalizing lo d with
   | zero => simp [emisLoop, ChainOk]
   | succ k ih =>
@@ -274,9 +284,9 @@ theorem instPhases_safe (g : Gen) (lo n : Nat) :
   simp [instPhases, safePhases]
 
 /-- regenerating branch: count invalidated, hashes, infrastructure, all emission files, count -/
-theorem regen_spec (t : Tbl) (ok : TblOK t) (vv : VV) (gid n : Nat) (d1 : Disk) (b : Bool)
+theorem regen_spec (t : Tbl) (w : Bool) (ok : TblOK t) (vv : VV) (gid n : Nat) (d1 : Disk) (b : Bool)
     (hb : b = d1.count.present) :
-    ChainOk t d1 ((if b then [Step.rm .count] else []) ++
+    ChainOk t w d1 ((if b then [Step.rm .count] else []) ++
         [.wrHashes (storeOf t.hashedFresh vv), .wrInfra ⟨vv, gid⟩] ++
         (emisLoop ⟨vv, gid⟩ 0 n ++ [.wrCount n])) ∧
     applyAll ((if b then [Step.rm .count] else []) ++
@@ -292,7 +302,7 @@ theorem regen_spec (t : Tbl) (ok : TblOK t) (vv : VV) (gid n : Nat) (d1 : Disk) 
       have := FileSt.present_false _ hb.symm
       simp [this]
   have hrest : ∀ (d2 : Disk), (∀ c, d2.count ≠ .ok c) →
-      ChainOk t d2 ([.wrHashes (storeOf t.hashedFresh vv), .wrInfra ⟨vv, gid⟩] ++
+      ChainOk t w d2 ([.wrHashes (storeOf t.hashedFresh vv), .wrInfra ⟨vv, gid⟩] ++
         (emisLoop ⟨vv, gid⟩ 0 n ++ [.wrCount n])) ∧
       applyAll ([.wrHashes (storeOf t.hashedFresh vv), .wrInfra ⟨vv, gid⟩] ++
         (emisLoop ⟨vv, gid⟩ 0 n ++ [.wrCount n])) d2 =
@@ -318,6 +328,7 @@ theorem regen_spec (t : Tbl) (ok : TblOK t) (vv : VV) (gid n : Nat) (d1 : Disk) 
         simp only [applyAll_cons, applyAll_nil, Step.apply, applyAll_emisLoop]
         have : 0 ≤ i ∧ i < 0 + n := by omega
         rw [if_pos this]
+        exact Slot.of_ok w _
     · simp only [applyAll_append, applyAll_cons, applyAll_nil, Step.apply, applyAll_emisLoop]
       cases d2
       simp only [Disk.mk.injEq, true_and, and_true]
@@ -337,15 +348,15 @@ theorem regen_spec (t : Tbl) (ok : TblOK t) (vv : VV) (gid n : Nat) (d1 : Disk) 
     | false => simp
 
 /-- add-simulations branch on a folder that satisfies the invariant -/
-theorem extend_spec (t : Tbl) (d1 : Disk) (hi : Inv t d1) (c n : Nat) (st : Store) (g : Gen)
+theorem extend_spec (t : Tbl) (w : Bool) (d1 : Disk) (hi : Inv t w d1) (c n : Nat) (st : Store) (g : Gen)
     (hc : d1.count = .ok c) (hh : d1.hashes = .ok st) (hg : d1.infra = .ok g) (hcn : c < n) :
-    ChainOk t d1 (emisLoop g c (n - c) ++ [.wrCount n]) ∧
+    ChainOk t w d1 (emisLoop g c (n - c) ++ [.wrCount n]) ∧
     applyAll (emisLoop g c (n - c) ++ [.wrCount n]) d1 =
       { d1 with emis := fun j => if c ≤ j ∧ j < n then .ok g else d1.emis j, count := .ok n } := by
   obtain ⟨m1, m2, e⟩ := hi c st g hc hh hg
   constructor
   · rw [chain_append]
-    refine ⟨chain_emisLoop t g _ c d1 ?_, ?_, trivial⟩
+    refine ⟨chain_emisLoop t w g _ c d1 ?_, ?_, trivial⟩
     · intro c' hc'
       rw [hc] at hc'
       cases hc'
@@ -362,6 +373,7 @@ theorem extend_spec (t : Tbl) (d1 : Disk) (hi : Inv t d1) (c n : Nat) (st : Stor
       by_cases hic : c ≤ i
       · have : c ≤ i ∧ i < c + (n - c) := by omega
         rw [if_pos this]
+        exact Slot.of_ok w _
       · have : ¬ (c ≤ i ∧ i < c + (n - c)) := by omega
         rw [if_neg this]
         exact e i (by omega)
@@ -373,44 +385,45 @@ theorem extend_spec (t : Tbl) (d1 : Disk) (hi : Inv t d1) (c n : Nat) (st : Stor
     simp [this]
 
 /-- the folder after a completed run -/
-structure Valid (t : Tbl) (vv : VV) (g : Gen) (n : Nat) (d : Disk) : Prop where
+structure Valid (t : Tbl) (w : Bool) (vv : VV) (g : Gen) (n : Nat) (d : Disk) : Prop where
   seeds : ∃ m, d.seeds = .ok m ∧ n ≤ m
   hashes : ∃ st, d.hashes = .ok st ∧ hashesMatch t st vv = true
   infra : d.infra = .ok g
-  count : ∃ c, d.count = .ok c ∧ n ≤ c ∧ ∀ i, i < c → d.emis i = .ok g
-  ts : d.ts = .ok ()
+  count : ∃ c, d.count = .ok c ∧ n ≤ c ∧ ∀ i, i < c → Slot w (d.emis i) g
+  ts : d.ts = .ok (t.periodOf vv.vw)
   cur : g.vv = vv
 
 /-- what the infrastructure + emission stages establish, started on folder `d1` -/
-def MidPost (t : Tbl) (vv : VV) (n : Nat) (d1 : Disk) (l : List Step) (mem : Gen) : Prop :=
-  ChainOk t d1 l ∧
+def MidPost (t : Tbl) (w : Bool) (vv : VV) (n : Nat) (d1 : Disk) (l : List Step) (mem : Gen) : Prop :=
+  ChainOk t w d1 l ∧
   (applyAll l d1).seeds = d1.seeds ∧
   (applyAll l d1).ts = d1.ts ∧
   (∃ st, (applyAll l d1).hashes = .ok st ∧ hashesMatch t st vv = true) ∧
   (applyAll l d1).infra = .ok mem ∧
-  (∃ c, (applyAll l d1).count = .ok c ∧ n ≤ c ∧ ∀ i, i < c → (applyAll l d1).emis i = .ok mem) ∧
+  (∃ c, (applyAll l d1).count = .ok c ∧ n ≤ c ∧ ∀ i, i < c → Slot w ((applyAll l d1).emis i) mem) ∧
   mem.vv = vv
 
-theorem mid_spec (t : Tbl) (ok : TblOK t) (vv : VV) (gid n : Nat) (force : Bool) (d : Disk)
-    (x : FileSt Nat) (hi : Inv t d) (s2 : List Step) (mem : Gen) (hfe : Bool) (s3 : List Step)
+theorem mid_spec (t : Tbl) (w : Bool) (ok : TblOK t) (vv : VV) (gid n : Nat) (force : Bool) (d : Disk)
+    (x : FileSt Nat) (hi : Inv t w d) (s2 : List Step) (mem : Gen) (hfe : Bool) (s3 : List Step)
     (h2 : infraStage t vv gid force d = some (s2, mem, hfe))
     (h3 : emisStage t n hfe mem d = some s3) :
-    MidPost t vv n { d with seeds := x } (s2 ++ s3) mem := by
+    MidPost t w vv n { d with seeds := x } (s2 ++ s3) mem := by
   have regen : ∀ (hashed : List (String × Input)) (ops : List IOp), hashed = t.hashedFresh →
       ops = safeIOps → s2 = instIOps ops (storeOf hashed vv) ⟨vv, gid⟩ d → mem = ⟨vv, gid⟩ →
-      hfe = false → MidPost t vv n { d with seeds := x } (s2 ++ s3) mem := by
+      hfe = false → MidPost t w vv n { d with seeds := x } (s2 ++ s3) mem := by
     intro hashed ops e1 e2 e3 e4 e5
     subst e1 e2 e3 e4 e5
     simp only [emisStage, Bool.false_eq_true, if_false, Option.some.injEq] at h3
     subst h3
     rw [ok.emisRegen, instIOps_safe, instPhases_safe]
-    obtain ⟨c1, c2⟩ := regen_spec t ok vv gid n { d with seeds := x } d.count.present rfl
+    obtain ⟨c1, c2⟩ := regen_spec t w ok vv gid n { d with seeds := x } d.count.present rfl
     simp only [Nat.sub_zero]
     refine ⟨c1, ?_⟩
     rw [c2]
     refine ⟨rfl, rfl, ⟨_, rfl, match_self t ok vv⟩, rfl, ⟨n, rfl, Nat.le_refl _, ?_⟩, rfl⟩
     intro i hi
-    simp [hi]
+    simp only [hi, if_true]
+    exact Slot.of_ok w _
   unfold infraStage at h2
   split at h2
   · simp only [Option.some.injEq, Prod.mk.injEq] at h2
@@ -434,14 +447,15 @@ theorem mid_spec (t : Tbl) (ok : TblOK t) (vv : VV) (gid n : Nat) (force : Bool)
             · simp only [hcn, if_true] at h3
               subst h3
               rw [ok.emisExtend, instPhases_safe, List.nil_append]
-              have hi1 : Inv t { d with seeds := x } := hi
-              obtain ⟨c1, c2⟩ := extend_spec t { d with seeds := x } hi1 c n st g hc hst hg hcn
+              have hi1 : Inv t w { d with seeds := x } := hi
+              obtain ⟨c1, c2⟩ := extend_spec t w { d with seeds := x } hi1 c n st g hc hst hg hcn
               refine ⟨c1, ?_⟩
               rw [c2]
               refine ⟨rfl, rfl, ⟨st, hst, hm⟩, hg, ⟨n, rfl, Nat.le_refl _, ?_⟩, hcur⟩
               intro i hin
               by_cases hic : c ≤ i
-              · simp [hic, hin]
+              · simp only [hic, hin, and_self, if_true]
+                exact Slot.of_ok w _
               · have : ¬ (c ≤ i ∧ i < n) := by omega
                 simp only [this, if_false]
                 exact e i (by omega)
@@ -454,9 +468,9 @@ theorem mid_spec (t : Tbl) (ok : TblOK t) (vv : VV) (gid n : Nat) (force : Bool)
         exact regen _ _ ok.sameHashed ok.regenOps h2.1.symm h2.2.1.symm h2.2.2.symm
     · simp at h2
 
-theorem seeds_spec (t : Tbl) (n : Nat) (d : Disk) (s1 : List Step) (force : Bool)
+theorem seeds_spec (t : Tbl) (w : Bool) (n : Nat) (d : Disk) (s1 : List Step) (force : Bool)
     (h : seedsStage n d = some (s1, force)) :
-    ∃ m, applyAll s1 d = { d with seeds := .ok m } ∧ n ≤ m ∧ ChainOk t d s1 := by
+    ∃ m, applyAll s1 d = { d with seeds := .ok m } ∧ n ≤ m ∧ ChainOk t w d s1 := by
   unfold seedsStage at h
   split at h
   · simp at h
@@ -488,15 +502,47 @@ theorem infra_hfe_nil (t : Tbl) (vv : VV) (gid : Nat) (force : Bool) (d : Disk) 
       · simp at h
     · simp at h
 
-theorem plan_spec (t : Tbl) (ok : TblOK t) (vv : VV) (gid n : Nat) (d : Disk) (hi : Inv t d) :
-    ChainOk t d (plan t vv gid n d).steps ∧
+/-- the seed-series stage: at most one write, after which the series is the one of the current
+period; nothing else changes -/
+theorem ts_spec (t : Tbl) (ok : TblOK t) (vv : VV) (d : Disk) (s4 : List Step)
+    (h : tsStage t vv d = some s4) :
+    (s4 = [] ∨ s4 = [.wrTs (t.periodOf vv.vw)]) ∧
+    ∀ d3 : Disk, d3.ts = d.ts →
+      (applyAll s4 d3).ts = .ok (t.periodOf vv.vw) ∧ (applyAll s4 d3).seeds = d3.seeds ∧
+      (applyAll s4 d3).hashes = d3.hashes ∧ (applyAll s4 d3).infra = d3.infra ∧
+      (applyAll s4 d3).emis = d3.emis ∧ (applyAll s4 d3).count = d3.count := by
+  unfold tsStage at h
+  split at h
+  · simp at h
+  · rename_i p hp
+    simp only [Option.some.injEq] at h
+    by_cases hr : tsReuse t p (t.periodOf vv.vw) = true
+    · simp only [hr, if_true] at h
+      subst h
+      refine ⟨Or.inl rfl, ?_⟩
+      intro d3 h3
+      simp only [applyAll_nil, and_self, and_true]
+      rw [h3, hp]
+      simp only [tsReuse, ok.tsExact, Bool.not_true, Bool.false_or, Bool.and_eq_true,
+        beq_iff_eq] at hr
+      congr 1
+      exact Prod.ext hr.2 hr.1
+    · simp only [hr, if_false] at h
+      subst h
+      exact ⟨Or.inr rfl, fun d3 _ => ⟨rfl, rfl, rfl, rfl, rfl, rfl⟩⟩
+  · simp only [Option.some.injEq] at h
+    subst h
+    exact ⟨Or.inr rfl, fun d3 _ => ⟨rfl, rfl, rfl, rfl, rfl, rfl⟩⟩
+
+theorem plan_spec (t : Tbl) (w : Bool) (ok : TblOK t) (vv : VV) (gid n : Nat) (d : Disk) (hi : Inv t w d) :
+    ChainOk t w d (plan t vv gid n d).steps ∧
     ∀ g, (plan t vv gid n d).outcome = some g →
-      Valid t vv g n (applyAll (plan t vv gid n d).steps d) := by
+      Valid t w vv g n (applyAll (plan t vv gid n d).steps d) := by
   cases h1 : seedsStage n d with
   | none => simp only [plan, h1]; exact ⟨trivial, by simp⟩
   | some r1 =>
     obtain ⟨s1, force⟩ := r1
-    obtain ⟨m, e1, hm, c1⟩ := seeds_spec t n d s1 force h1
+    obtain ⟨m, e1, hm, c1⟩ := seeds_spec t w n d s1 force h1
     cases h2 : infraStage t vv gid force d with
     | none => simp only [plan, h1, h2]; exact ⟨c1, by simp⟩
     | some r2 =>
@@ -514,65 +560,71 @@ theorem plan_spec (t : Tbl) (ok : TblOK t) (vv : VV) (gid n : Nat) (d : Disk) (h
         exact ⟨c1, by simp⟩
       | some s3 =>
         obtain ⟨m1, m2, m3, m4, m5, m6, m7⟩ :=
-          mid_spec t ok vv gid n force d (.ok m) hi s2 mem hfe s3 h2 h3
-        have c123 : ChainOk t d (s1 ++ s2 ++ s3) := by
+          mid_spec t w ok vv gid n force d (.ok m) hi s2 mem hfe s3 h2 h3
+        have c123 : ChainOk t w d (s1 ++ s2 ++ s3) := by
           rw [List.append_assoc, chain_append, e1]
           exact ⟨c1, m1⟩
         have e123 : applyAll (s1 ++ s2 ++ s3) d =
             applyAll (s2 ++ s3) { d with seeds := .ok m } := by
           rw [List.append_assoc, applyAll_append, e1]
-        cases h4 : tsStage d with
+        cases h4 : tsStage t vv d with
         | none => simp only [plan, h1, h2, h3, h4]; exact ⟨c123, by simp⟩
         | some s4 =>
           simp only [plan, h1, h2, h3, h4]
-          unfold tsStage at h4
-          split at h4
-          · simp at h4
-          · rename_i u hu
-            simp only [Option.some.injEq] at h4
-            subst h4
-            simp only [List.append_nil, Option.some.injEq]
+          obtain ⟨hs4, e4⟩ := ts_spec t ok vv d s4 h4
+          refine ⟨?_, ?_⟩
+          · rw [chain_append]
             refine ⟨c123, ?_⟩
-            intro g hg
+            rcases hs4 with rfl | rfl
+            · trivial
+            · exact ⟨trivial, trivial⟩
+          · intro g hg
+            simp only [Option.some.injEq] at hg
             subst hg
-            rw [e123]
-            exact ⟨⟨m, m2, hm⟩, m4, m5, m6, by rw [m3]; exact hu, m7⟩
-          · rename_i hu
-            simp only [Option.some.injEq] at h4
-            subst h4
-            simp only [Option.some.injEq]
-            refine ⟨?_, ?_⟩
-            · rw [chain_append]
-              exact ⟨c123, trivial, trivial⟩
-            · intro g hg
-              subst hg
-              rw [applyAll_append, e123]
-              exact ⟨⟨m, m2, hm⟩, m4, m5, m6, rfl, m7⟩
+            rw [applyAll_append, e123]
+            obtain ⟨t1, t2, t3, t4, t5, t6⟩ := e4 _ m3
+            refine ⟨⟨m, by rw [t2]; exact m2, hm⟩, ?_, by rw [t4]; exact m5, ?_, t1, m7⟩
+            · rw [t3]; exact m4
+            · rw [t6, t5]; exact m6
 
 /-! ### histories -/
 
-theorem inv_exec (t : Tbl) (ok : TblOK t) (s : St) (op : Op) (hi : Inv t s.disk) :
-    Inv t (exec t s op).disk := by
+theorem inv_exec (t : Tbl) (w : Bool) (ok : TblOK t) (s : St) (op : Op) (hi : Inv t w s.disk)
+    (hw : op.isDelEmis = true → w = true) : Inv t w (exec t s op).disk := by
   cases op with
   | edit k v => exact hi
   | run n =>
-    exact chain_inv t _ _ hi (plan_spec t ok s.vv s.gid n s.disk hi).1
+    exact chain_inv t w _ _ hi (plan_spec t w ok s.vv s.gid n s.disk hi).1
   | crash n k =>
-    exact chain_crash t _ k _ hi (plan_spec t ok s.vv s.gid n s.disk hi).1
+    exact chain_crash t w _ k _ hi (plan_spec t w ok s.vv s.gid n s.disk hi).1
   | tear n k =>
-    exact chain_tear t _ k _ hi (plan_spec t ok s.vv s.gid n s.disk hi).1
+    exact chain_tear t w _ k _ hi (plan_spec t w ok s.vv s.gid n s.disk hi).1
   | del f =>
-    exact step_inv t s.disk (.rm f) hi trivial
+    exact step_inv t w s.disk (.rm f) hi trivial
+  | delEmis i =>
+    have hw' : w = true := hw rfl
+    intro c st g hc hh hg
+    obtain ⟨a, b, e⟩ := hi c st g hc hh hg
+    refine ⟨a, b, ?_⟩
+    intro j hj
+    simp only [exec, Disk.setEmis]
+    by_cases hji : j = i
+    · simp only [hji, if_true]
+      exact Or.inr ⟨hw', rfl⟩
+    · simp only [hji, if_false]
+      exact e j hj
 
-theorem inv_init (t : Tbl) : Inv t St.init.disk := by
+theorem inv_init (t : Tbl) (w : Bool) : Inv t w St.init.disk := by
   intro c st g hc
   simp [St.init, Disk.empty] at hc
 
-theorem inv_execAll (t : Tbl) (ok : TblOK t) (h : List Op) (s : St) (hi : Inv t s.disk) :
-    Inv t (execAll t s h).disk := by
+theorem inv_execAll (t : Tbl) (w : Bool) (ok : TblOK t) (h : List Op) (s : St)
+    (hi : Inv t w s.disk) (hw : ∀ op ∈ h, op.isDelEmis = true → w = true) :
+    Inv t w (execAll t s h).disk := by
   induction h generalizing s with
   | nil => exact hi
-  | cons op rest ih => exact ih _ (inv_exec t ok s op hi)
+  | cons op rest ih =>
+    exact ih _ (inv_exec t w ok s op hi (hw op (by simp))) (fun o ho => hw o (by simp [ho]))
 
 /-- steps that would overwrite or remove something an earlier run with `n0` simulations relies on -/
 def Step.touchesOld (n0 : Nat) : Step → Bool
@@ -593,11 +645,31 @@ theorem emisLoop_touches (g : Gen) (cnt lo n0 : Nat) (h : n0 ≤ lo) :
     · simp only [Step.touchesOld, decide_eq_false_iff_not]; omega
     · exact ih (lo + 1) (by omega) s hs
 
+/-- steps of a run on a complete folder of `n0` simulations that keep it complete wherever the run
+is cut: no hash / infrastructure write, no removal, seed and count files only grow -/
+def Step.benign (n0 : Nat) : Step → Bool
+  | .wrSeeds m => decide (n0 ≤ m)
+  | .wrCount m => decide (n0 ≤ m)
+  | .wrEmis _ _ => true
+  | _ => false
+
+theorem emisLoop_benign (g : Gen) (cnt lo n0 : Nat) :
+    ∀ s ∈ emisLoop g lo cnt, s.benign n0 = true := by
+  induction cnt generalizing lo with
+  | zero => simp [emisLoop]
+  | succ k ih =>
+    intro s hs
+    simp only [emisLoop, List.mem_cons] at hs
+    rcases hs with rfl | hs
+    · rfl
+    · exact ih (lo + 1) s hs
+
 /-- the plan of a run that finds a complete, matching folder: nothing old is touched -/
-theorem plan_of_valid (t : Tbl) (ok : TblOK t) (vv : VV) (g : Gen) (n0 n1 gid : Nat) (d : Disk)
-    (hv : Valid t vv g n0 d) :
+theorem plan_of_valid (t : Tbl) (w : Bool) (ok : TblOK t) (vv : VV) (g : Gen) (n0 n1 gid : Nat)
+    (d : Disk) (hv : Valid t w vv g n0 d) :
     (plan t vv gid n1 d).outcome = some g ∧
-    ∀ s ∈ (plan t vv gid n1 d).steps, s.touchesOld n0 = false := by
+    (∀ s ∈ (plan t vv gid n1 d).steps, s.touchesOld n0 = false) ∧
+    (n0 ≤ n1 → ∀ s ∈ (plan t vv gid n1 d).steps, s.benign n0 = true) := by
   obtain ⟨⟨m, hs, hm⟩, ⟨st, hh, hmatch⟩, hg, ⟨c, hc, hnc, he⟩, hts, hcur⟩ := hv
   have hpres : t.required.all d.present = true := by
     simp only [List.all_eq_true]
@@ -609,23 +681,173 @@ theorem plan_of_valid (t : Tbl) (ok : TblOK t) (vv : VV) (g : Gen) (n0 n1 gid : 
     simp [infraStage, hpres, hh, hmatch, hg]
   have h3 : emisStage t n1 true g d = some (if c < n1 then instPhases t.emisExtend g c n1 else []) := by
     simp [emisStage, hc]
-  have h4 : tsStage d = some [] := by
-    simp [tsStage, hts]
+  have h4 : tsStage t vv d = some [] := by
+    simp [tsStage, hts, tsReuse]
   simp only [plan, h1, h2, h3, h4, List.append_nil, true_and]
-  intro s hs'
-  simp only [List.mem_append] at hs'
-  rcases hs' with hs' | hs'
-  · by_cases hmn : m < n1
-    · simp only [hmn, if_true, List.mem_singleton] at hs'
-      subst hs'
-      rfl
-    · simp [hmn] at hs'
-  · by_cases hcn : c < n1
-    · simp only [hcn, if_true, ok.emisExtend, instPhases_safe, List.mem_append,
-        List.mem_singleton] at hs'
-      rcases hs' with hs' | rfl
-      · exact emisLoop_touches g _ c n0 hnc s hs'
-      · rfl
-    · simp [hcn] at hs'
+  refine ⟨?_, ?_⟩
+  · intro s hs'
+    simp only [List.mem_append] at hs'
+    rcases hs' with hs' | hs'
+    · by_cases hmn : m < n1
+      · simp only [hmn, if_true, List.mem_singleton] at hs'
+        subst hs'
+        rfl
+      · simp [hmn] at hs'
+    · by_cases hcn : c < n1
+      · simp only [hcn, if_true, ok.emisExtend, instPhases_safe, List.mem_append,
+          List.mem_singleton] at hs'
+        rcases hs' with hs' | rfl
+        · exact emisLoop_touches g _ c n0 hnc s hs'
+        · rfl
+      · simp [hcn] at hs'
+  · intro hle s hs'
+    simp only [List.mem_append] at hs'
+    rcases hs' with hs' | hs'
+    · by_cases hmn : m < n1
+      · simp only [hmn, if_true, List.mem_singleton] at hs'
+        subst hs'
+        simpa [Step.benign] using hle
+      · simp [hmn] at hs'
+    · by_cases hcn : c < n1
+      · simp only [hcn, if_true, ok.emisExtend, instPhases_safe, List.mem_append,
+          List.mem_singleton] at hs'
+        rcases hs' with hs' | rfl
+        · exact emisLoop_benign g _ c n0 s hs'
+        · simpa [Step.benign] using hle
+      · simp [hcn] at hs'
+
+/-- the non-emission part of `Valid` -/
+structure FieldsOK (t : Tbl) (vv : VV) (g : Gen) (n0 : Nat) (d : Disk) : Prop where
+  seeds : ∃ m, d.seeds = .ok m ∧ n0 ≤ m
+  hashes : ∃ st, d.hashes = .ok st ∧ hashesMatch t st vv = true
+  infra : d.infra = .ok g
+  count : ∃ c, d.count = .ok c ∧ n0 ≤ c
+  ts : d.ts = .ok (t.periodOf vv.vw)
+
+theorem benign_fields (t : Tbl) (vv : VV) (g : Gen) (n0 : Nat) (l : List Step) (d : Disk)
+    (hb : ∀ s ∈ l, s.benign n0 = true) (hf : FieldsOK t vv g n0 d) :
+    FieldsOK t vv g n0 (applyAll l d) := by
+  induction l generalizing d with
+  | nil => exact hf
+  | cons s rest ih =>
+    apply ih _ (fun x hx => hb x (by simp [hx]))
+    have hs := hb s (by simp)
+    obtain ⟨f1, f2, f3, f4, f5⟩ := hf
+    cases s with
+    | wrSeeds m => exact ⟨⟨m, rfl, by simpa [Step.benign] using hs⟩, f2, f3, f4, f5⟩
+    | wrCount m => exact ⟨f1, f2, f3, ⟨m, rfl, by simpa [Step.benign] using hs⟩, f5⟩
+    | wrEmis i g' => exact ⟨f1, f2, f3, f4, f5⟩
+    | wrHashes _ => simp [Step.benign] at hs
+    | wrInfra _ => simp [Step.benign] at hs
+    | wrTs _ => simp [Step.benign] at hs
+    | rm _ => simp [Step.benign] at hs
+
+theorem valid_of_fields (t : Tbl) (w : Bool) (vv : VV) (g : Gen) (n0 : Nat) (d : Disk)
+    (hf : FieldsOK t vv g n0 d) (hi : Inv t w d) (hcur : g.vv = vv) : Valid t w vv g n0 d := by
+  obtain ⟨f1, ⟨st, f2, f2'⟩, f3, ⟨c, f4, f4'⟩, f5⟩ := hf
+  exact ⟨f1, ⟨st, f2, f2'⟩, f3, ⟨c, f4, f4', (hi c st g f4 f2 f3).2.2⟩, f5, hcur⟩
+
+theorem fields_of_valid (t : Tbl) (w : Bool) (vv : VV) (g : Gen) (n0 : Nat) (d : Disk)
+    (hv : Valid t w vv g n0 d) : FieldsOK t vv g n0 d := by
+  obtain ⟨f1, f2, f3, ⟨c, f4, f4', _⟩, f5, _⟩ := hv
+  exact ⟨f1, f2, f3, ⟨c, f4, f4'⟩, f5⟩
+
+/-! ### progress -/
+
+/-- no singleton file is torn (emission files do not influence whether the initialisation completes) -/
+structure NoTorn (d : Disk) : Prop where
+  seeds : d.seeds ≠ .torn
+  hashes : d.hashes ≠ .torn
+  infra : d.infra ≠ .torn
+  count : d.count ≠ .torn
+  ts : d.ts ≠ .torn
+
+theorem noTorn_apply (s : Step) (d : Disk) (h : NoTorn d) : NoTorn (s.apply d) := by
+  obtain ⟨a, b, c, e, f⟩ := h
+  cases s with
+  | rm x => cases x <;> exact ⟨by simp_all [Step.apply, Disk.remove], by simp_all [Step.apply, Disk.remove],
+      by simp_all [Step.apply, Disk.remove], by simp_all [Step.apply, Disk.remove],
+      by simp_all [Step.apply, Disk.remove]⟩
+  | _ => exact ⟨by simp_all [Step.apply, Disk.setEmis], by simp_all [Step.apply, Disk.setEmis],
+      by simp_all [Step.apply, Disk.setEmis], by simp_all [Step.apply, Disk.setEmis],
+      by simp_all [Step.apply, Disk.setEmis]⟩
+
+theorem noTorn_applyAll (l : List Step) (d : Disk) (h : NoTorn d) : NoTorn (applyAll l d) := by
+  induction l generalizing d with
+  | nil => exact h
+  | cons s rest ih => exact ih _ (noTorn_apply s d h)
+
+theorem present_not_torn {α} (f : FileSt α) (hp : f.present = true) (ht : f ≠ .torn) :
+    ∃ a, f = .ok a := by
+  cases f with
+  | absent => simp [FileSt.present] at hp
+  | torn => exact absurd rfl ht
+  | ok a => exact ⟨a, rfl⟩
+
+/-- exactly which folders make the next run fail loudly -/
+theorem plan_fails_iff (t : Tbl) (ok : TblOK t) (vv : VV) (gid n : Nat) (d : Disk) :
+    (plan t vv gid n d).outcome = none ↔
+      d.seeds = .torn ∨ d.ts = .torn ∨
+      (d.seeds ≠ .absent ∧ t.required.all d.present = true ∧
+        (d.hashes = .torn ∨ ∃ st, d.hashes = .ok st ∧ hashesMatch t st vv = true ∧
+          (d.infra = .torn ∨ d.count = .torn))) := by
+  have hreq : t.required.all d.present = true →
+      d.hashes.present = true ∧ d.infra.present = true ∧ d.count.present = true := by
+    intro h
+    simp only [List.all_eq_true] at h
+    exact ⟨h _ ok.hashesRequired, h _ ok.infraRequired, h _ ok.countRequired⟩
+  cases hs : d.seeds with
+  | torn => simp [plan, seedsStage, hs]
+  | absent =>
+    -- force_remake: everything is regenerated
+    cases hts : d.ts <;> simp [plan, seedsStage, hs, infraStage, emisStage, tsStage, hts]
+  | ok m =>
+    by_cases hp : t.required.all d.present = true
+    · obtain ⟨p1, p2, p3⟩ := hreq hp
+      cases hh : d.hashes with
+      | absent => simp [hh, FileSt.present] at p1
+      | torn => simp [plan, seedsStage, hs, infraStage, hp, hh]
+      | ok st =>
+        by_cases hm : hashesMatch t st vv = true
+        · cases hg : d.infra with
+          | absent => simp [hg, FileSt.present] at p2
+          | torn => simp [plan, seedsStage, hs, infraStage, hp, hh, hm, hg]
+          | ok g =>
+            cases hc : d.count with
+            | absent => simp [hc, FileSt.present] at p3
+            | torn => simp [plan, seedsStage, hs, infraStage, hp, hh, hm, hg, emisStage, hc]
+            | ok c =>
+              cases hts : d.ts <;>
+                simp [plan, seedsStage, hs, infraStage, hp, hh, hm, hg, emisStage, hc, tsStage, hts]
+        · cases hts : d.ts <;>
+            simp [plan, seedsStage, hs, infraStage, hp, hh, hm, emisStage, tsStage, hts]
+    · cases hts : d.ts <;> simp [plan, seedsStage, hs, infraStage, hp, emisStage, tsStage, hts]
+
+theorem noTorn_progress (t : Tbl) (ok : TblOK t) (vv : VV) (gid n : Nat) (d : Disk)
+    (h : NoTorn d) : (plan t vv gid n d).outcome ≠ none := by
+  intro hn
+  rcases (plan_fails_iff t ok vv gid n d).mp hn with h1 | h1 | ⟨_, _, h1 | ⟨st, _, _, h1 | h1⟩⟩
+  · exact h.seeds h1
+  · exact h.ts h1
+  · exact h.hashes h1
+  · exact h.infra h1
+  · exact h.count h1
+
+theorem noTorn_exec (t : Tbl) (s : St) (op : Op) (h : NoTorn s.disk) (ht : op.isTear = false) :
+    NoTorn (exec t s op).disk := by
+  cases op with
+  | edit k v => exact h
+  | run n => exact noTorn_applyAll _ _ h
+  | crash n k => exact noTorn_applyAll _ _ h
+  | tear n k => simp [Op.isTear] at ht
+  | del f => exact noTorn_apply (.rm f) _ h
+  | delEmis i => exact ⟨h.seeds, h.hashes, h.infra, h.count, h.ts⟩
+
+theorem noTorn_execAll (t : Tbl) (h : List Op) (s : St) (hn : NoTorn s.disk)
+    (ht : ∀ op ∈ h, op.isTear = false) : NoTorn (execAll t s h).disk := by
+  induction h generalizing s with
+  | nil => exact hn
+  | cons op rest ih =>
+    exact ih _ (noTorn_exec t s op hn (ht op (by simp))) (fun o ho => ht o (by simp [ho]))
 
 end LdarModel.Cache
